@@ -138,6 +138,7 @@ def _jobs(tier):
         add(n=6, tf='3m', kind='T1', side='short', sym=[5], gaps=[5])
         add(n=9, tf='3m', kind='T7d', side='long', data=['5m'], sym=[2, 7])  # data route that is not a multiple of the trading timeframe
         add(n=9, tf='3m', kind='T1h', side='long', sym=[1, 4, 7])  # an order priced from position.pnl read in the fill hook
+        add(n=7, tf='3m', kind='T1', side='long', sym=[1, 4, 6])  # session length that is not a multiple of the trading timeframe
     else:
         for side in ('long', 'short'):
             add(n=6, tf='3m', kind='T1', side=side, sym=[1, 4])
@@ -153,6 +154,8 @@ def _jobs(tier):
             add(n=10, tf='5m', kind='T1', side=side, sym=[7], gaps=[7])
         add(n=15, tf='3m', kind='T1', side='long', data=['15m'], sym=[1, 4])
         add(n=9, tf='3m', kind='T1h', side='long', sym=[1, 4, 7])
+        add(n=7, tf='3m', kind='T1', side='long', sym=[1, 4, 6])
+        add(n=8, tf='3m', kind='T1', side='short', sym=[2, 5, 7])
         add(n=9, tf='3m', kind='T1h', side='short', sym=[2, 4, 8])
         add(n=9, tf='3m', kind='T7d', side='long', data=['5m'], sym=[2, 7])
         add(n=12, tf='3m', kind='T7d', side='short', data=['5m'], sym=[3, 6, 8])
